@@ -356,6 +356,7 @@ def run_part(run, replay=None):
     mit = iter(model)
 
     kinds, distinct, samples = {}, set(), []
+    fmt_pairs = []
     swept = 0
     nviol0 = len(run.violations)
 
@@ -390,6 +391,7 @@ def run_part(run, replay=None):
             samples.append({"kind": kind, "line": c["line"][:200], "impl": il[:200], "model": ml[:200]})
         if cmd == "FMT":
             distinct.add(c["line"])
+            fmt_pairs.append((c["line"].split("\t")[1], m[0]))
             if f[0] != m[0]:
                 rep["broken"] = "correspondence NumDefs.fmt_g6 vs d_scalar::to_string_sqf"
                 run.violation("number printed differently from the model", rep, found_input=False)
@@ -473,6 +475,17 @@ def run_part(run, replay=None):
             continue
 
     n = len(cases) - kinds.get("sweep", 0)
+    # the extracted printer against the kernel: a sample of this run's FMT cases evaluated inside Coq must equal the driver's output
+    if fmt_pairs and not replay:
+        smp = run.rng.sample(fmt_pairs, min(len(fmt_pairs), 40))
+        body = "\n".join("Example k%d : fmt_g6 (decode32 %d) = [%s]. Proof. vm_compute. reflexivity. Qed."
+                         % (i, int(bits, 16), ";".join(str(x) for x in V.unhx(hexs))) for i, (bits, hexs) in enumerate(smp))
+        okk, msg = V.kernel_crosscheck("C06_num", "From Coq Require Import ZArith List. Import ListNotations.\nFrom SqfVerif Require Import Num.NumDefs.\nLocal Open Scope Z_scope.", body)
+        run.cov["kernel_crosscheck"] = {"cases": len(smp), "agree": okk,
+                                        "what": "NumDefs.fmt_g6 (decode32 bits) evaluated by vm_compute inside Coq = output of the extracted OCaml driver"}
+        if not okk:
+            run.violation("the extracted number printer and the kernel's evaluation of NumDefs.fmt_g6 disagree (or the kernel file does not compile)",
+                          {"broken": "extraction / ocaml/num_driver.ml vs Num/NumDefs.v", "coqc": msg}, found_input=False)
     run.cov["evaluations"] = run.cov.get("evaluations", 0) + n + swept
     run.cov["distinct_nontrivial"] = run.cov.get("distinct_nontrivial", 0) + len(distinct)
     dist = run.cov.setdefault("input_distribution", {})
